@@ -148,6 +148,9 @@ def judge_deliveries(topo: Topo, pipe: SimPipeline, plog: PubLog, props):
                 if set(got) != want:
                     out.append((name, f'{f}: source {g} id {mid}: delivered topics {sorted(got)} but the subscribed topics '
                                       f'published under that id are {sorted(want)}', wit))
+                if not eph and did is not None and mid != did:
+                    out.append(('C02_Payload', f'{f}: the frames from {g} in the set delivered as id {did} are the ones published '
+                                               f'under id {mid}, not under id {did}', wit))
                 if eph:
                     prev = eph_last.get((inc, i))
                     if prev is not None and prev[0] == pinc and mid < prev[1]:
